@@ -59,9 +59,11 @@ def cubic_minmax_closed_form(c):
     c.ensures('max>=value-at-every-candidate', ops.And(*[ops.le(v, mx) for v in vals]))
 
 
-@contract('C08', 'bezier.bezier_real_minmax', params=[{'_no_bounded': True}], budget=3000, tier='thorough')
+@contract('C08', 'bezier.bezier_real_minmax', params=[{'_no_bounded': True}], budget=3000, tier='experimental')
 def cubic_minmax_containment_direct(c):
-    """containment for every t in [0,1], directly in nonlinear real arithmetic (thorough tier)"""
+    """containment for every t in [0,1], directly in nonlinear real arithmetic.  NOT part of any
+    registered command (tier 'experimental'): z3/cvc5 do not decide it within two hours; the
+    containment claim rests on the candidate-completeness clauses plus the assumed calculus fact"""
     a = [c.real('a%d' % i) for i in range(4)]
     t = c.real('t')
     denom = a[0] - 3 * a[1] + 3 * a[2] - a[3]
